@@ -228,6 +228,18 @@ class ExprMixin:
             return Unknown(ty="str")
         if ty_of(a) == "float" or ty_of(b) == "float" or isinstance(op, ast.Div) or isinstance(op, ast.Pow):
             return Unknown(deps_of(a) | deps_of(b), ty="float" if not isinstance(op, ast.Pow) else None)
+        if isinstance(a, Ref) and a.kind == "list" and isinstance(op, (ast.Mult, ast.Add)):
+            la_ = self._list_len(a, st)
+            if isinstance(op, ast.Mult) and const_of(b) is None and la_ is not None and as_lin(b) is not None and not la_.terms:
+                r = st.alloc("list", items=[], opaque=True)
+                st.heap[r.ident].fields = {"len": lin_norm(lin_scale(as_lin(b), la_.c))}
+                return r
+            if isinstance(op, ast.Add) and isinstance(b, Ref) and b.kind == "list" and (st.heap[a.ident].opaque or st.heap[b.ident].opaque):
+                lb_ = self._list_len(b, st)
+                r = st.alloc("list", items=[], opaque=True)
+                if la_ is not None and lb_ is not None:
+                    st.heap[r.ident].fields = {"len": lin_norm(lin_add(la_, lb_))}
+                return r
         if isinstance(a, Ref) and a.kind == "list" and not st.heap[a.ident].opaque:
             if isinstance(op, ast.Mult) and const_of(b) is not None:
                 return st.alloc("list", items=list(st.heap[a.ident].items) * const_of(b))
@@ -314,6 +326,14 @@ class ExprMixin:
                 return Raised("ZeroDivisionError", node, fr.func if fr else None)
             return Unknown(deps_of(a) | deps_of(b), ty="int")
         return Unknown(deps_of(a) | deps_of(b))
+
+    def _list_len(self, r, st):
+        cell = st.heap[r.ident]
+        if not cell.opaque:
+            return Lin({}, len(cell.items))
+        if cell.fields and cell.fields.get("len") is not None:
+            return as_lin(norm(cell.fields["len"]))
+        return None
 
     def int_as_bits(self, v):
         """view an int-typed symbol as a bit vector with per-bit sources"""
@@ -647,4 +667,14 @@ class ExprMixin:
         self.refine(node, True, sa, fr)
         self.event(sb, fr, "cond", node, (False, val))
         self.refine(node, False, sb, fr)
+        # a test of one single symbolic bit fixes that bit on both branches
+        bv = norm(val) if not isinstance(val, tuple) else None
+        if isinstance(bv, BitV):
+            live = [b for b in bv.bits + (bv.hi,) if b != 0]
+            if len(live) == 1 and isinstance(live[0], tuple) and live[0][0] == "s":
+                src, neg = live[0][1], live[0][2]
+                for s_, pol in ((sa, True), (sb, False)):
+                    bf = dict(s_.extra.get("bitfacts", {}))
+                    bf[src] = int(pol != neg)
+                    s_.extra["bitfacts"] = bf
         return [(sa, True), (sb, False)]
